@@ -457,6 +457,14 @@ func runC18(tier string, args []string) {
 		}(sp)
 	}
 	wg.Wait()
+	if len(args) < 2 {
+		var cw sync.WaitGroup
+		for i := 0; i < run.Pick(3, 12); i++ {
+			cw.Add(1)
+			go func(i int) { defer cw.Done(); runC18Churn(run, i, run.Seed*7000+int64(i)) }(i)
+		}
+		cw.Wait()
+	}
 	collectRaces(run, workDir())
 	run.Finish(run.Pick(10, 60))
 }
